@@ -26,6 +26,9 @@ type c05Case struct {
 	// BadReplyHeader: a middleware in front of the HTTP server adds a "-bin" reply header that is
 	// not valid base64 (the client cannot decode the reply metadata)
 	BadReplyHeader bool `json:",omitempty"`
+	// Reject: something in front of the HTTP handlers (auth decorator, proxy, wrong mount point) answers the
+	// request itself with this HTTP status; the handler never runs and the stream has failed at the HTTP level
+	Reject int `json:",omitempty"`
 }
 
 type schedResult struct {
@@ -316,6 +319,21 @@ func propC05(c c05Case) *Outcome {
 			})
 		}
 	}
+	if c.Reject != 0 && isHTTP(c.Carrier) {
+		o.class("rejected-at-http-level")
+		co.WrapHandler = func(h http.Handler) http.Handler {
+			return http.HandlerFunc(func(w http.ResponseWriter, r *http.Request) {
+				http.Error(w, http.StatusText(c.Reject), c.Reject)
+			})
+		}
+		var steps []Step
+		for _, st := range c.Steps {
+			if st.Actor != "h" && st.Actor != "h2" {
+				steps = append(steps, st)
+			}
+		}
+		c.Steps = steps
+	}
 	res := runSchedule(c.Carrier, c.Kind, c.Steps, true, co)
 	c05Serial.Unlock()
 	obs := map[string]interface{}{"events": res.Events, "handler_status": res.HandlerStatus, "sent_by_handler": res.SentByHandler, "sent_by_client": res.SentByClient}
@@ -393,7 +411,7 @@ func propC05(c c05Case) *Outcome {
 		if e.Step.Actor == "cs2" {
 			evKey = "cs/" + e.Step.Op
 		}
-		badHdr := c.BadReplyHeader && isHTTP(c.Carrier)
+		badHdr := (c.BadReplyHeader || c.Reject != 0) && isHTTP(c.Carrier)
 		switch evKey {
 		case "cs/send":
 			if e.ClientClosed || cardAny || badHdr {
@@ -441,7 +459,7 @@ func propC05(c c05Case) *Outcome {
 			}
 		}
 	}
-	if c.BadReplyHeader && isHTTP(c.Carrier) {
+	if (c.BadReplyHeader || c.Reject != 0) && isHTTP(c.Carrier) {
 		return o // the call fails on the client (reply metadata undecodable): only termination, panics and leaks are judged
 	}
 	if !cancelInScript {
@@ -546,7 +564,7 @@ func genStepsFor(t *rapid.T, kind string, allowCancel bool, maxSteps int, second
 		st := Step{Actor: a}
 		switch a {
 		case "h2":
-			st.Op = rapid.SampledFrom([]string{"send", "send", "recv", "settlr", "sethdr"}).Draw(t, "h2op")
+			st.Op = rapid.SampledFrom([]string{"send", "send", "recv", "settlr", "sethdr", "sendhdr"}).Draw(t, "h2op")
 			if st.Op == "send" {
 				st.Size = rapid.SampledFrom([]int{0, 5, 200}).Draw(t, "size")
 			}
@@ -588,6 +606,9 @@ func genC05(t *rapid.T) c05Case {
 	c := c05Case{Carrier: rapid.SampledFrom([]string{cInproc, cInproc, cHTTP, cHTTPMux}).Draw(t, "carrier"), Kind: rapid.SampledFrom([]string{kClientStream, kServerStream, kBidi, kBidi}).Draw(t, "kind")}
 	c.Steps = genStepsFor(t, c.Kind, true, 14, c.Carrier == cInproc && rapid.Bool().Draw(t, "h2"))
 	c.BadReplyHeader = isHTTP(c.Carrier) && rapid.IntRange(0, 9).Draw(t, "badhdr") == 0
+	if isHTTP(c.Carrier) && !c.BadReplyHeader && rapid.IntRange(0, 19).Draw(t, "reject") == 0 {
+		c.Reject = rapid.SampledFrom([]int{401, 403, 404, 415, 502, 503}).Draw(t, "rejectstatus")
+	}
 	return c
 }
 
